@@ -147,6 +147,8 @@ def diblock_values(p, k):
             pw = pw * E
             tot += (N - t) * pw
         return 1.0 + 2.0 * tot / N
+    if p['part'] == 'full':
+        return intra(NA + NB)
     if p['part'] == 'AA':
         return intra(NA)
     if p['part'] == 'BB':
